@@ -42,9 +42,11 @@ def one_case(ctx, lmplz, dexe, case, wd, flags, tag="c", spec_mode=False):
     ref = L.reference(case)
     ctx.hist("tool.class", t["cls"])
     ctx.hist("order", case["order"])
-    ctx.hist("prune", "none" if case["prune"] is None else ("uni" if case["prune"][0] > 0 else "hi"))
+    ctx.hist("prune", L.prune_kind(case))
     ctx.hist("limit_vocab", case["limit"] is not None)
     # ---- error classes
+    if t["cls"] in ("prune-order", "prune-count", "bad-threshold") and t.get("wrote"):
+        out.append(("oracle", "refusal-wrote", "lmplz refuses the --prune vector (%s) but left an output file" % t["cls"]))
     if ref["cls"] != "ok" or t["cls"] != "ok":
         if ref["cls"] != t["cls"]:
             if ref.get("stats") and L.near_discount_boundary(ref["stats"]):
